@@ -5,8 +5,12 @@ Tie D: facet list of `to_facets(remove_duplicates=True)` and the (cell, facet, s
        hypotheses of `C12_structure` on every mesh.
 Tie P: exact-rational area vectors / centres / volumes / per-cell sums of the model (`c12.geom`) vs the float
        results of the real kernels, within the scale-relative tolerance of DESIGN 2.3.
-Oracle: the clauses of the property evaluated on the three returned objects only.
+Oracle: the clauses of the property evaluated on the three returned objects only; the metric clauses a second time against
+       an exact integer reference geometry with tolerances derived from conditioning (`metric_oracle`), and in the streams
+       `absolute-scale` / `far-offset` (the main-loop meshes scaled by 2^e / translated far from the origin) together with the
+       metamorphic relation "same facets, incidence, signs, normals and (scaled) areas as at unit scale near the origin".
 """
+import math
 from fractions import Fraction as F
 
 import numpy as np
@@ -18,13 +22,16 @@ from . import d_util as U
 PROP = 'C12'
 LEAN_MODULES = ['Femio.Props.C12']
 THEOREMS = ['C12_structure', 'C12_structure_count', 'C12_tet_sign', 'C12_hex_sign_convex', 'C12_mirror_sign',
-            'C12_area_sum_zero', 'C12_divergence', 'C12_normal_is_area_vector']
+            'C12_area_sum_zero', 'C12_divergence', 'C12_normal_is_area_vector', 'C12_similarity_area', 'C12_similarity_sign']
 PARTIAL = [
     'C12_hex_sign_convex needs convexity as an explicit hypothesis (every cell vertex on the inner side of the '
     'facet plane); for tetrahedra the sign is derived from positivity of the volume alone (C12_tet_sign)',
     'C12_divergence for hexahedra needs planarity of each face as an explicit hypothesis; the facet area is the norm '
     'of the vector area, which equals femio\'s scalar "centroid" area only for planar facets',
     'square roots / normalisation of normals are not modelled: the model works with un-normalised area vectors',
+    'floating point is not modelled: in exact arithmetic the clauses are invariant under x -> s x + t (C12_similarity_area, '
+    'C12_similarity_sign), so the model cannot see the clamp of functions.normalize on small facets or cancellation far from the origin; '
+    'those are covered by the oracle + metamorphic streams `absolute-scale` and `far-offset` on the real code only (bounded testing, not proof)',
 ]
 RULE = ('seeded conforming tet or hex meshes from harness/meshgen.gen_geometric (1..3 cells per axis, thorough ..4; '
         'affine map, optional jitter, voids / several components, unreferenced nodes, arbitrary node / element ids and '
@@ -36,7 +43,16 @@ RULE = ('seeded conforming tet or hex meshes from harness/meshgen.gen_geometric 
         '2^k; (o, k) from (20,22) (18,23) (16,24) (20,23) (13,17) (10,18) (4,20) (20,31)); stream `int-coords` (inside the '
         'quantifier): meshes all of whose coordinates are integers handed to femio as an int64 node array - `voxel` (axis-aligned, '
         'cell sizes 1 / 3 / 5 so that cell and facet centres are not integers) and `int-affine` (4 x the generator\'s affine image), '
-        'a quarter of them with pow2 ids')
+        'a quarter of them with pow2 ids; '
+        'stream `absolute-scale` (inside the quantifier, "any size"): every main-loop mesh with k % 5 == 0 scaled EXACTLY by 2^e, '
+        'e from -13 .. 10: 60 % `small` (e such that every facet stays inside the clamp-free range of functions.normalize, 2 x area >= '
+        '1e-9, and every facet area is <= 1e-6 where the mesh allows it - millimetre cells in metres), the rest from -7 .. -1 and 1 .. 10; '
+        'stream `far-offset` (inside the quantifier): every main-loop mesh with k % 5 == 2 translated by an offset of 2^r x longest edge, '
+        'r from 10, 13, 17, 20, 23 (|p| / h ~ 1e3 .. 1e7), per-axis anisotropy factors 1 / 2^-3 / 2^-10 / 0, two thirds with offsets '
+        'k 2^(E-50) that fill the whole mantissa and keep the translation exact, one third with two-decimal offsets (UTM-like; the mesh is '
+        'then DEFINED by the rounded float64 coordinates); in both streams: structure clauses, metric_oracle, metamorphic relation against '
+        'the observation of the untransformed mesh (facet rows, facet ids, incidence triples and signs identical; normals, areas and area '
+        'vectors equal up to the exact factor); no model correspondence there (the exact model cannot see float effects)')
 ASSUMPTIONS = [
     'cells are convex and non-overlapping (generator: positive affine images of bricks, jitter accepted only if every '
     'face-fan sub-tet stays positive); the model decides `faceDeterminedB`, `ownNodesB`, `distinctKeysB`, '
@@ -119,10 +135,36 @@ def real_obs(ctx, m):
     return obs
 
 
-def oracle(ctx, m, obs, case, planar):
+def oracle(ctx, m, obs, case, planar, ref=None):
+    """the clauses of the property on the returned objects: structure, then (planar-faced cells) the two metric identities with the
+    DESIGN 2.3 tolerances against femio's own volumes, then `metric_oracle` against the exact reference"""
+    rows = structure_oracle(ctx, m, obs, case)
+    if rows is None:
+        return
+    if not planar:
+        ctx.count('stream:hex-warped (metric identities not evaluated)')
+    else:
+        sc2, sc3 = U.scale(m, 2), U.scale(m, 3)
+        A = np.array(obs['areas'])[:, None] * np.array(obs['normals'])
+        Cn = np.array(obs['centres'])
+        for i, e in enumerate(obs['cells']):
+            s = sum((v * A[j] for j, v in rows[i]), np.zeros(3))
+            if not np.all(np.abs(s) <= U.TOL_LINEAR * sc2 * 10):
+                ctx.fail('identity:area-vectors-do-not-sum-to-zero', 'signed area vectors of a cell do not sum to zero', case,
+                         {'cell': e, 'sum': s.tolist(), 'tolerance': U.TOL_LINEAR * sc2 * 10})
+                return
+            d = sum(v * float(A[j] @ Cn[j]) for j, v in rows[i]) / 3
+            if not U.close(d, obs['vols'][i], U.TOL_CENTROID * sc3):
+                ctx.fail('identity:divergence', 'one third of the signed sum of area x (normal . centre) differs from the cell volume',
+                         case, {'cell': e, 'divergence_sum': d, 'volume': obs['vols'][i]})
+                return
+    metric_oracle(ctx, m, obs, case, planar, rows, ref)
+
+
+def structure_oracle(ctx, m, obs, case):
+    """structure clauses; returns {cell row: [(facet column, sign)]} or None after a failure"""
     els = U.elem_list(m)
     by_id = {e: (t, c) for t, e, c in els}
-    sc2, sc3 = U.scale(m, 2), U.scale(m, 3)
     nf = len(obs['facets'])
     if obs['shape'] != (len(els), nf):
         ctx.fail('incidence:shape', 'signed incidence matrix has the wrong shape', case, {'shape': obs['shape'], 'cells': len(els), 'facets': nf})
@@ -168,22 +210,342 @@ def oracle(ctx, m, obs, case, planar):
             ctx.fail('structure:boundary-facet', 'a boundary facet is not incident to exactly one cell', case,
                      {'facet': obs['facets'][j], 'entries': [(obs['cells'][r], v) for r, v in inc]})
             return
-    if not planar:
-        ctx.count('stream:hex-warped (metric identities not evaluated)')
+    return rows
+
+
+# ---------------------------------------------------------------------------------------------------------------------
+# exact reference geometry and the metric clauses with tolerances derived from conditioning (ASSUMPTIONS)
+# ---------------------------------------------------------------------------------------------------------------------
+EPS52 = 2.0 ** -52
+C_COND = 32                # calibrated: the unchanged tree stays below 0.3 in every stream (ASSUMPTIONS)
+RAW_NORMAL_MIN = 1e-9      # clamp-free range of functions.normalize: 2 x facet area >= 1e-9 (clamp below EPSILON^2 = 1e-10)
+
+
+WORST = {}                 # clause -> largest observed deviation / tolerance (diagnostic, goes into the evidence)
+
+
+def _worst(key, dev, tol, mask=None):
+    r = np.asarray(dev, dtype=float) / np.asarray(tol, dtype=float)
+    if mask is not None:
+        r = r[mask]
+    if r.size:
+        WORST[key] = max(WORST.get(key, 0.0), float(np.max(r)))
+
+
+def _icross(a, b):
+    return (a[1] * b[2] - a[2] * b[1], a[2] * b[0] - a[0] * b[2], a[0] * b[1] - a[1] * b[0])
+
+
+def _idot(a, b):
+    return a[0] * b[0] + a[1] * b[1] + a[2] * b[2]
+
+
+def exact_ref(m, facets):
+    """Exact reference geometry of the mesh femio holds (every float64 coordinate is k / 2^g: integer arithmetic in a local frame).
+    `facets`: the rows of the returned facet mesh.  Quantities that do not depend on the frame (vector areas, volumes, the distance
+    of a cell centre from a facet plane, the divergence sum of a closed cell) are evaluated relative to the first referenced node."""
+    pos = dict(m['nodes'])
+    els = U.elem_list(m)
+    used = sorted({n for _, _, c in els for n in c})
+    pos = {n: tuple(F(float(v)) for v in pos[n]) for n in used}      # what femio holds
+    D = max(v.denominator for n in used for v in pos[n])
+    assert D & (D - 1) == 0, 'coordinates are not float64 values'
+    o = pos[used[0]]
+    X = {n: tuple(int((v - w) * D) for v, w in zip(pos[n], o)) for n in used}
+    P = float(max(abs(v) for n in used for v in pos[n]))
+    L2 = 0
+    for t, e, c in els:
+        for f in G.FACES[t]:
+            for a, b in U.dir_edges([c[i] for i in f]):
+                d = tuple(x - y for x, y in zip(X[a], X[b]))
+                L2 = max(L2, _idot(d, d))
+    L = math.sqrt(L2) / float(D)
+
+    def varea2(f):      # twice the vector area x D^2 of the closed polygon f (node ids)
+        tot = (0, 0, 0)
+        for i in range(len(f)):
+            tot = tuple(x + y for x, y in zip(tot, _icross(X[f[i - 1]], X[f[i]])))
+        return tot
+
+    def csum(f):        # sum of the local integer coordinates (centre = csum / len)
+        return tuple(sum(X[n][k] for n in f) for k in range(3))
+    S2 = [varea2(f) for f in facets]
+    N2 = [_idot(s, s) for s in S2]
+    rt = [math.sqrt(n2) for n2 in N2]                       # |2 x vector area| x D^2 (int -> float is correctly rounded)
+    Df = float(D)
+    A = np.array(rt) / (2 * Df * Df)
+    unit = np.array([[x / r if r else 0.0 for x in s] for s, r in zip(S2, rt)])
+    vol, defect, margin = {}, {}, float('inf')
+    vcache = {}
+    for t, e, c in els:
+        cs, nc = csum(c), len(c)
+        v72 = 0         # 72 x volume x D^3, face by face (centroid fan of every face; the exact volume for planar faces)
+        d72 = 0         # 72 x (1/3 sum S_out . centre) x D^3 in the local frame (= volume for planar faces: C12_divergence)
+        for fl in G.FACES[t]:
+            f = tuple(c[i] for i in fl)
+            n = len(f)
+            if f not in vcache:
+                s2, g = varea2(f), csum(f)
+                fan = 12 * U.det3(*[X[x] for x in f]) if n == 3 else 3 * sum(U.det3(g, X[f[i - 1]], X[f[i]]) for i in range(n))
+                vcache[f] = (s2, g, fan, (12 // n) * _idot(s2, g), math.sqrt(_idot(s2, s2)))
+            s2, g, fan, flux, r2 = vcache[f]
+            v72 += fan
+            d72 += flux
+            if r2:
+                # distance of the cell centre from the facet plane, in units of the coordinates
+                rel = (nc * g[0] - n * cs[0], nc * g[1] - n * cs[1], nc * g[2] - n * cs[2])   # n nc D (facet centre - cell centre)
+                margin = min(margin, abs(_idot(rel, s2)) / (n * nc * Df * r2))
+        vol[e] = v72 / (72 * D ** 3)
+        defect[e] = abs((d72 - v72) / (72 * D ** 3))
+    return {'P': P, 'L': L, 'kappa': max(P / L, 1.0), 'A': A, 'unit': unit, 'vol': vol, 'defect': defect, 'margin': margin,
+            'in_range': 2 * A >= RAW_NORMAL_MIN}
+
+
+def metric_oracle(ctx, m, obs, case, planar, rows, ref=None, label=''):
+    """metric clauses against the exact reference; `rows` from structure_oracle.  Every assertion is a clause of the property
+    (area x normal is the area vector of the facet: the normal is a unit vector perpendicular to the facet and the area is the
+    facet's area; closure; divergence) with a tolerance that follows from the conditioning of the clause (ASSUMPTIONS)."""
+    R = obs['_ref'] = ref or obs.get('_ref') or exact_ref(m, obs['facets'])
+    L, kap = R['L'], R['kappa']
+    t2 = C_COND * EPS52 * kap * L * L
+    t3 = C_COND * EPS52 * kap * L ** 3
+    n = np.array(obs['normals'], dtype=float).reshape(-1, 3)
+    a = np.array(obs['areas'], dtype=float)
+    ok = R['in_range']
+    if not ok.all():
+        ctx.count('facets-below-the-clamp-range (nothing metric asserted)', int((~ok).sum()))
+    info = {'stream': label or 'main', 'max_abs_coordinate': R['P'], 'longest_edge': L, 'kappa': kap}
+    if R['margin'] <= 64 * EPS52 * R['P']:
+        ctx.count('sign-ill-conditioned (metric clauses not asserted)')
         return
-    A = np.array(obs['areas'])[:, None] * np.array(obs['normals'])
-    Cn = np.array(obs['centres'])
+    tn = t2 / np.maximum(R['A'], 1e-300) + 1e-12
+    ln = np.linalg.norm(n, axis=1)
+    _worst('normal-length', np.abs(ln - 1.0), tn, ok)
+    bad = np.nonzero(ok & ~(np.abs(ln - 1.0) <= tn))[0]
+    if len(bad):
+        j = int(bad[0])
+        ctx.fail('normal:not-a-unit-vector', f'{len(bad)} returned facet normal(s) are not unit vectors although 2 x area >= {RAW_NORMAL_MIN:g}',
+                 case, {**info, 'facet': obs['facets'][j], 'normal': n[j].tolist(), 'length': float(ln[j]), 'exact_area': float(R['A'][j]),
+                        'tolerance': float(tn[j])})
+        return
+    if not planar:
+        return
+    par = np.einsum('ij,ij->i', n, R['unit'])
+    off = np.abs(n - par[:, None] * R['unit']).max(axis=1)
+    _worst('normal-direction', off, tn, ok)
+    bad = np.nonzero(ok & ~(off <= tn))[0]
+    if len(bad):
+        j = int(bad[0])
+        ctx.fail('normal:not-perpendicular-to-the-facet', f'{len(bad)} returned facet normal(s) are not perpendicular to their planar facet',
+                 case, {**info, 'facet': obs['facets'][j], 'normal': n[j].tolist(), 'exact_unit_normal': R['unit'][j].tolist(),
+                        'tangential_part': float(off[j]), 'tolerance': float(tn[j])})
+        return
+    _worst('facet-area', np.abs(a - R['A']), t2, ok)
+    bad = np.nonzero(ok & ~(np.abs(a - R['A']) <= t2))[0]
+    if len(bad):
+        j = int(bad[0])
+        ctx.fail('facet-area:wrong', f'area of {len(bad)} planar facet(s) of the returned facet mesh differs from the exact area', case,
+                 {**info, 'facet': obs['facets'][j], 'area': float(a[j]), 'exact_area': float(R['A'][j]), 'tolerance': t2})
+        return
+    Av = a[:, None] * n
+    Cn = np.array(obs['centres'], dtype=float)
     for i, e in enumerate(obs['cells']):
-        s = sum((v * A[j] for j, v in rows[i]), np.zeros(3))
-        if not np.all(np.abs(s) <= U.TOL_LINEAR * sc2 * 10):
+        if not all(ok[j] for j, _ in rows[i]):
+            continue
+        s = sum((v * Av[j] for j, v in rows[i]), np.zeros(3))
+        _worst('closure', np.abs(s), t2)
+        if not np.all(np.abs(s) <= t2):
             ctx.fail('identity:area-vectors-do-not-sum-to-zero', 'signed area vectors of a cell do not sum to zero', case,
-                     {'cell': e, 'sum': s.tolist(), 'tolerance': U.TOL_LINEAR * sc2 * 10})
+                     {**info, 'cell': e, 'sum': s.tolist(), 'tolerance': t2, 'largest_facet_area': float(max(R['A'][j] for j, _ in rows[i]))})
             return
-        d = sum(v * float(A[j] @ Cn[j]) for j, v in rows[i]) / 3
-        if not U.close(d, obs['vols'][i], U.TOL_CENTROID * sc3):
+        d = sum(v * float(Av[j] @ Cn[j]) for j, v in rows[i]) / 3
+        tol = t3 + R['defect'][e]
+        _worst('divergence', abs(d - R['vol'][e]), tol)
+        if not abs(d - R['vol'][e]) <= tol:
             ctx.fail('identity:divergence', 'one third of the signed sum of area x (normal . centre) differs from the cell volume',
-                     case, {'cell': e, 'divergence_sum': d, 'volume': obs['vols'][i]})
+                     case, {**info, 'cell': e, 'divergence_sum': d, 'exact_volume': R['vol'][e], 'tolerance': tol})
             return
+    ctx.count('metric-oracle:cases' + (':' + label if label else ''))
+
+
+# ---------------------------------------------------------------------------------------------------------------------
+# streams `absolute-scale` and `far-offset`: the main-loop meshes at another absolute scale / far from the origin
+# ---------------------------------------------------------------------------------------------------------------------
+def light_obs(ctx, m, vols):
+    """observation on ONE object: the three returned objects, areas / centres of the returned facet mesh"""
+    fd = build(m)
+    U.stage('calculate_normal_incidence_matrix()')
+    ffd, inc, normals = G.quiet(fd.calculate_normal_incidence_matrix)
+    coo = inc.tocoo()
+    obs = {'facets': U.rows(ffd.elements.data), 'facet_ids': [int(i) for i in ffd.elements.ids],
+           'triples': sorted((int(r), int(c), int(v)) for r, c, v in zip(coo.row, coo.col, coo.data)),
+           'shape': tuple(int(x) for x in inc.shape), 'normals': normals.tolist(), 'cells': U.flat_ids(fd)}
+    U.stage('areas / centres of the returned facet mesh')
+    obs['areas'] = [float(x) for x in G.quiet(ffd.calculate_element_areas)[:, 0]]
+    obs['centres'] = G.quiet(lambda: ffd.convert_nodal2elemental(ffd.nodes.data, calc_average=True)).tolist()
+    if vols:
+        f3 = build(m)
+        U.stage('calculate_element_volumes()')
+        obs['vols'] = [float(x) for x in G.quiet(f3.calculate_element_volumes, raise_negative_volume=False)[:, 0]]
+    return obs
+
+
+def transformed(m, tr):
+    """the mesh under x -> 2^e x + offset; coordinates = the float64 values femio will hold (exact unless tr says `rounded`)"""
+    s = F(2) ** tr.get('scale_exp', 0)
+    off = [F(x) for x in tr.get('offset', ['0', '0', '0'])]
+    out = {k: v for k, v in m.items() if k not in ('reuse', 'int_coords', 'int_style')}
+    out['nodes'] = [(i, tuple(F(float(s * v + o)) for v, o in zip(p, off))) for i, p in m['nodes']]
+    exact = all(q == tuple(s * v + o for v, o in zip(p, off)) for (_, q), (_, p) in zip(out['nodes'], m['nodes']))
+    return out, exact
+
+
+def draw_scale(rng, k, Rb):
+    """exponent of the `absolute-scale` stream (RULE); k = index within the stream"""
+    if k % 5 < 3:
+        lo = max(-13, math.ceil(math.log(RAW_NORMAL_MIN / (2 * float(Rb['A'].min())), 4) + 1e-9))
+        hi = math.floor(math.log(1e-6 / float(Rb['A'].max()), 4))
+        return {'scale_exp': rng.randint(lo, max(lo, min(hi, -1))), 'class': 'small'}
+    return {'scale_exp': rng.choice([-7, -6, -5, -4, -3, -2, -1, 1, 2, 3, 5, 8, 10]), 'class': 'other'}
+
+
+def draw_offset(rng, k, Rb):
+    """offset of the `far-offset` stream (RULE): magnitude 2^r x longest edge on the leading axes"""
+    r = [10, 13, 17, 20, 23][k % 5]
+    E = r + math.ceil(math.log2(Rb['L']))
+    an = rng.choice([(0, 0, 0), (0, 0, 0), (0, 3, 10), (0, None, 3), (0, 0, None), (3, 0, 10)])
+    an = rng.sample(an, 3)
+    decimal = k % 3 == 2
+    off = []
+    for d in an:
+        if d is None:
+            off.append(F(0))
+        elif decimal:
+            off.append(F(round(rng.choice([-1, 1]) * rng.uniform(0.5, 1.0) * 2.0 ** (E - d) * 100)) / 100)
+        else:
+            off.append(rng.choice([-1, 1]) * rng.randint(2 ** 49, 2 ** 50) * F(2) ** (E - d - 50))
+    return {'offset': [str(x) for x in off], 'r': r, 'style': 'decimal' if decimal else 'full-mantissa'}
+
+
+def metamorphic(ctx, stream, tr, obs0, R0, obs2, R2, case, part):
+    """facet rows, facet ids, incidence matrix and signs of the transformed mesh are those of the original one; normals, areas
+    and area vectors are equal up to the exact factor 4^e, within the conditioning tolerances of both observations"""
+    for key, what in (('cells', 'cell order'), ('shape', 'shape of the incidence matrix'), ('facets', 'rows of the facet mesh'),
+                      ('facet_ids', 'facet ids'), ('triples', 'signed incidence entries (cell, facet, sign)')):
+        if part == 'combinatorial' and obs0[key] != obs2[key]:
+            d = None
+            if key in ('facets', 'triples'):
+                d = {'only_original': [x for x in obs0[key] if x not in obs2[key]][:4],
+                     'only_transformed': [x for x in obs2[key] if x not in obs0[key]][:4]}
+            ctx.fail(f'metamorphic:{stream}:{key}', f'{what} of the {"scaled" if stream == "absolute-scale" else "translated"} mesh '
+                     f'differ from those of the original mesh', case, d)
+            return
+    if part == 'combinatorial':
+        return
+    s2 = 4.0 ** tr.get('scale_exp', 0)
+    ok = R0['in_range'] & R2['in_range']
+    t2 = C_COND * EPS52 * (R0['kappa'] + R2['kappa']) * R2['L'] ** 2
+    tn = t2 / np.maximum(R2['A'], 1e-300) + 1e-12
+    n0, n2 = np.array(obs0['normals'], dtype=float), np.array(obs2['normals'], dtype=float)
+    a0, a2 = np.array(obs0['areas'], dtype=float) * s2, np.array(obs2['areas'], dtype=float)
+    for sig, what, dev, tol in (('normals', 'facet normals', np.abs(n2 - n0).max(axis=1), tn),
+                                ('areas', 'facet areas', np.abs(a2 - a0), t2),
+                                ('area-vectors', 'area vectors area x normal', np.abs(a2[:, None] * n2 - a0[:, None] * n0).max(axis=1), t2)):
+        _worst(f'metamorphic:{stream}:{sig}', dev, tol, ok)
+        bad = np.nonzero(ok & ~(dev <= tol))[0]
+        if len(bad):
+            j = int(bad[0])
+            ctx.fail(f'metamorphic:{stream}:{sig}', f'{what} of {len(bad)} facet(s) change under an exact '
+                     f'{"scaling by a power of two" if stream == "absolute-scale" else "translation"}', case,
+                     {'facet': obs0['facets'][j], 'original (x factor)': (n0[j].tolist(), float(a0[j])), 'transformed': (n2[j].tolist(), float(a2[j])),
+                      'deviation': float(dev[j]), 'tolerance': float(np.broadcast_to(tol, dev.shape)[j]), 'kappa': R2['kappa']})
+            return
+
+
+def variant_case(ctx, stream, base, obs0, tr, k=None):
+    """one case of the streams `absolute-scale` / `far-offset`: `base` is a main-loop mesh, `obs0` its observation"""
+    m2, exact = transformed(base, tr)
+    tr = dict(tr, exact=exact)
+    planar = base['kind'] == 'tet' or set(base['blocks']) == {'tet'} or not base.get('jittered')
+    case = U.mesh_case(m2, jittered=bool(base.get('jittered')), stream=stream, transform=tr, base=G.to_json(base))
+    key = (stream, tuple(m2['nodes']), tuple((t, tuple((e, tuple(c)) for e, c in b)) for t, b in m2['blocks'].items()))
+    obs2 = U.guarded(ctx, case, key, light_obs, ctx, m2, stream == 'absolute-scale')
+    if obs2 is None:
+        return
+    # the reference is evaluated on the facet rows of the ORIGINAL observation (valid: the original case passed); the first clause of
+    # the metamorphic relation says that the transformed mesh has exactly these rows
+    R0 = obs0.get('_ref') or exact_ref(base, obs0['facets'])
+    R2 = exact_ref(m2, obs0['facets'])
+    n_int = sum(len(G.FACES[t]) for t, _, _ in U.elem_list(m2)) - len(obs2['facets'])
+    ctx.case(key, sample={**G.describe(m2), 'stream': stream, 'transform': tr, 'kappa': R2['kappa'], 'longest_edge': R2['L'],
+                          'planar_faces': planar} if ctx.dist.get('stream:' + stream, 0) <= 1 else None, nontrivial=n_int > 0)
+    ctx.count(f'{stream}:kind:{base["kind"]}{"" if planar else " (warped)"}')
+    ctx.count(f'{stream}:coordinates {"exact" if exact else "rounded to float64"}')
+    if stream == 'absolute-scale':
+        ctx.count(f'absolute-scale:2^{tr["scale_exp"]}')
+        ctx.count(f'absolute-scale:largest facet area ~1e{math.floor(math.log10(float(R2["A"].max())))}')
+    else:
+        ctx.count(f'far-offset:{tr.get("style")}:|p|/h ~1e{math.floor(math.log10(R2["kappa"]))}')
+    n0 = len(ctx.failures)
+    metamorphic(ctx, stream, tr, obs0, R0, obs2, R2, case, part='combinatorial')
+    if len(ctx.failures) > n0:
+        return
+    rows = structure_oracle(ctx, m2, obs2, case)
+    if rows is None:
+        return
+    metric_oracle(ctx, m2, obs2, case, planar, rows, R2, label=stream)
+    if len(ctx.failures) > n0:
+        return
+    if stream == 'absolute-scale' and planar:
+        # femio's own cell volumes at that scale (scale-relative tolerance of DESIGN 2.3; float32 accumulation in the hex kernel)
+        tol = U.TOL_CENTROID * R2['P'] ** 3
+        for i, e in enumerate(obs2['cells']):
+            if not abs(obs2['vols'][i] - R2['vol'][e]) <= tol + R2['defect'][e]:
+                ctx.fail('identity:divergence:cell-volume', 'calculate_element_volumes() of the scaled mesh is not the cell volume', case,
+                         {'cell': e, 'volume': obs2['vols'][i], 'exact_volume': R2['vol'][e], 'tolerance': tol})
+                return
+    metamorphic(ctx, stream, tr, obs0, R0, obs2, R2, case, part='metric')
+
+
+class _Shadow:
+    """ctx stand-in for a labelled stream whose classification is open: failures are counted, never reported"""
+
+    def __init__(self, ctx, label):
+        self.ctx, self.label, self.failures, self.dist = ctx, label, [], ctx.dist
+
+    def fail(self, signature, what, case, observed=None):
+        self.failures.append(signature)
+        self.ctx.count(f'{self.label}:would-fail:{signature}')
+
+    def count(self, key, k=1):
+        self.ctx.count(f'{self.label}:{key}', k)
+
+
+def mixed_components_stream(ctx, n):
+    """labelled stream `tet+hex-components` (classification open, NOT asserted): a tet component and a hex component in one mesh
+    (conforming: they share nothing) - the only input that reaches the `mix` branch of extract_facets from this API.  Whether "a mesh
+    of convex tet or hex cells" includes a mesh with both is not decided by the property text; on this tree the call raises inside
+    convert_nodal2elemental(calc_average=True) (ragged np.array, rejected by numpy >= 1.24).  Outcomes are counted only."""
+    label = 'stream:tet+hex-components (not asserted)'
+    for k in range(n):
+        a = G.gen_geometric(ctx.rng, kind='tet', max_cells=2, unref=False)
+        b = G.gen_geometric(ctx.rng, kind='hex', max_cells=2, unref=False, jitter=False)
+        noff = max(i for i, _ in a['nodes']) + 1 + ctx.rng.randint(0, 9)
+        eoff = max(e for e, _ in a['blocks']['tet']) + 1 + ctx.rng.randint(0, 9)
+        m = {'kind': 'tet+hex', 'order': 'parts', 'id_style': 'parts', 'jittered': a['jittered'],
+             'nodes': a['nodes'] + [(i + noff, tuple(v + 64 for v in p)) for i, p in b['nodes']],
+             'blocks': {'tet': a['blocks']['tet'], 'hex': [(e + eoff, [x + noff for x in c]) for e, c in b['blocks']['hex']]}}
+        ctx.count(label)
+        try:
+            obs = light_obs(ctx, m, False)
+        except Exception as e:  # noqa
+            ctx.count(f'{label}:raises:{type(e).__name__} in {U.STAGE[0]}')
+            continue
+        sh = _Shadow(ctx, label)
+        rows = structure_oracle(sh, m, obs, None)
+        if rows is not None:
+            metric_oracle(sh, m, obs, None, True, rows)
+        ctx.count(f'{label}:{"clauses hold" if not sh.failures else "clauses fail"}')
 
 
 def correspond(ctx, m, obs, case, planar):
@@ -251,9 +613,10 @@ def one_case(ctx, m):
     case = U.mesh_case(m, jittered=bool(m.get('jittered')), reuse=bool(m.get('reuse')), int_coords=bool(m.get('int_coords')))
     planar = m['kind'] == 'tet' or not m.get('jittered')
     key = (tuple(m['nodes']), tuple((t, tuple((e, tuple(c)) for e, c in b)) for t, b in m['blocks'].items()))
+    n_fail = len(ctx.failures)
     obs = U.guarded(ctx, case, key, real_obs, ctx, m)
     if obs is None:
-        return
+        return None
     n_int = sum(len(G.FACES[t]) for t, _, _ in U.elem_list(m)) - len(obs['facets'])
     ctx.case(key, sample={**G.describe(m), 'facets': len(obs['facets']), 'interior_facets': n_int, 'planar_faces': planar},
              nontrivial=n_int > 0)
@@ -271,9 +634,11 @@ def one_case(ctx, m):
             # generator meshes are conforming and non-overlapping: a false hypothesis is a changed table / model
             ctx.disagree('a theorem hypothesis evaluates to false on a generator-conforming mesh', case, None, flags)
     oracle(ctx, m, obs, case, planar)
+    return obs if len(ctx.failures) == n_fail else None
 
 
 def run(ctx):
+    WORST.clear()
     n = ctx.n(200, 3000) if ctx.driver is not None else ctx.n(300, 1500)
     for name, obj in C.corpus_cases(PROP):
         try:
@@ -286,12 +651,15 @@ def run(ctx):
             ctx.count('corpus')
         except Exception as e:  # noqa
             ctx.notes.append(f'corpus case {name}: {e!r}')
+    bases = {'absolute-scale': [], 'far-offset': []}
     for k in range(n):
         m = gen(ctx, k)
         if k % 5 == 4:
             m['reuse'] = True
             ctx.count('stream:same-object-after-coordinate-assignment')
-        one_case(ctx, m)
+        obs = one_case(ctx, m)
+        if obs is not None and k % 5 in (0, 2):
+            bases['absolute-scale' if k % 5 == 0 else 'far-offset'].append((m, obs))
     # ---- drawn after the main loop (its cases are unchanged for a given seed); both streams are inside the quantifier
     for k in range(ctx.n(48, 500) if ctx.driver is not None else ctx.n(96, 600)):
         # ids with a binary structure (parts offset by multiples of 2^o, max id + 1 = 2^k), see meshgen.random_ids
@@ -301,11 +669,31 @@ def run(ctx):
         one_case(ctx, m)
     for k in range(ctx.n(40, 400) if ctx.driver is not None else ctx.n(80, 500)):
         one_case(ctx, gen_int(ctx, k))
+    # ---- the main-loop meshes at another absolute scale / far from the origin (inside the quantifier: "any size"); drawn last
+    for stream, draw in (('absolute-scale', draw_scale), ('far-offset', draw_offset)):
+        for j, (m, obs) in enumerate(bases[stream]):
+            ctx.count('stream:' + stream)
+            Rb = obs.get('_ref') or exact_ref(m, obs['facets'])
+            tr = draw(ctx.rng, j, Rb)
+            variant_case(ctx, stream, m, obs, tr)
+    mixed_components_stream(ctx, ctx.n(2, 20))
+    ctx.extra['conditioning'] = {'C': C_COND, 'unit': '2^-52 * max(|p| / h, 1) * h^d', 'raw_normal_min': RAW_NORMAL_MIN,
+                                 'largest_observed_deviation_over_tolerance': {k: round(v, 6) for k, v in sorted(WORST.items())}}
     ctx.extra['p_tie'] = {'tolerance_float64': U.TOL_LINEAR, 'tolerance_float32_volume': U.TOL_CENTROID,
                           'scale': 'max|coordinate|^d (d = 1 centres, 2 areas, 3 volumes)'}
 
 
 def replay(ctx, obj):
+    if obj['input'].get('stream') in ('absolute-scale', 'far-offset'):
+        base = G.from_json(obj['input']['base'])
+        base['jittered'] = obj['input'].get('jittered', False)
+        n0 = len(ctx.failures)
+        obs0 = U.guarded(ctx, {'mesh': obj['input']['base']}, 'replay', real_obs, ctx, base)
+        if obs0 is not None:
+            variant_case(ctx, obj['input']['stream'], base, obs0, obj['input']['transform'])
+        return {'describe': G.describe(base), 'stream': obj['input']['stream'], 'transform': obj['input']['transform'],
+                'failures': [{'signature': f['signature'], 'what': f['what'], 'observed': f['observed']} for f in ctx.failures[n0:]],
+                'fails': len(ctx.failures) > n0}
     m = G.from_json(obj['input']['mesh'])
     m['jittered'] = obj['input'].get('jittered', False)
     m['reuse'] = obj['input'].get('reuse', False)
